@@ -60,7 +60,7 @@ def enum_ckd(tier):
 
 def check_ckd(case, ctx):
     Prv, Pub, _ = _impl()
-    p, i = case["parent"], case["i"]
+    p, i = dict(case["parent"], c=S.case_salt(case)), case["i"]
     side = case["side"]
     if side == "pub" and i >= H:
         i -= H
@@ -134,6 +134,8 @@ def check_master(case, ctx):
         il = N + case["u"] % (BIG - N) if kind == "ge-n" else 1 + case["u"] % (N - 1)
     out = il.to_bytes(32, "big") + case["ir"]
     stub = patch.ScriptedPRF({0: out})
+    seed = case["seed"] + S.case_salt(case, 8)     # unique PRF input per case
+    case = dict(case, seed=seed)
     with patch.prf(stub):
         if case["via"] == "master_key":
             st_, node = call(Prv.master_key, case["seed"], case["testnet"])
@@ -176,6 +178,7 @@ def check_bip85(case, ctx):
         other = b"\xff" * 32   # the half that is NOT the secret may hold anything (>= n as an integer)
     secb = sec.to_bytes(32, "big")
     out = secb + other if case["app"] == "wif" else other + secb
+    case = dict(case, c=S.case_salt(case))       # unique entropy-PRF input per case
     master = Prv(key=case["k"].to_bytes(32, "big"), chain_code=case["c"])
     b = B85(master_node=master)
     stub = patch.ScriptedPRF({0: out})
@@ -210,7 +213,7 @@ def gen_seq(tier):
 def check_seq(case, ctx):
     """An invalid PRF output at step `at` of a multi-level derive_path: the whole call must fail."""
     Prv, Pub, _ = _impl()
-    p = case["parent"]
+    p = dict(case["parent"], c=S.case_salt(case))
     path = list(case["path"])
     side = case["side"]
     if side == "pub":
